@@ -156,6 +156,8 @@ def gen(rng, tier):
                         "criteria": rng.choice([None, None, None, ["seqid", "end_inc", "strand"], ["seqid", "end_inc"], ["seqid", ["end_thr", 2], "strand", "feature_type"]]),
                         "end": rng.choice(["none", "none", "crash", "restart"]),
                         "fault": rng.choice([None, None, None, {"frac": rng.random(), "mode": rng.choice(["error", "cancel", "crash"])}])})
+            if ops[-1]["fault"] is None and rng.random() < 0.3:
+                ops[-1]["raiser"] = rng.randint(2, 14)  # the caller's own criterion fails on its k-th call
         else:
             ops.append({"op": k})
     return {"feats": feats, "ops": ops}
@@ -393,6 +395,42 @@ def run(case):
                 flt = op.get("fault") if op["exclude"] else None
                 flt2 = op.get("fault") if (not op["exclude"] and (op.get("fault") or {}).get("mode") in ("error", "cancel")) else None
                 r_done = None
+                if op.get("raiser") and not flt and not flt2:
+                    # a merge criterion supplied by the caller raises part-way; the caller catches it and carries on.  Whatever
+                    # merge_all managed to store by then, "stored" means stored: the handle that ran it must show exactly what
+                    # a fresh process finds in the file (no merged feature / relation living only in its open transaction)
+                    base = op.get("criteria") or ["seqid", "end_inc", "strand", "feature_type"]
+                    fr = call(node, dict(mreq, criteria=[["raise_after", op["raiser"]]] + list(base)))
+                    if not fr["ok"] and fr["exc"] == "RuntimeError" and "criterion failed" in fr["msg"]:
+                        probes["criterion_raises_inside_merge_all"] = 1
+                        mine = call(node, {"op": "dump", "h": "h"})
+                        obs = w.node(prelude=False)
+                        call(obs, {"op": "open", "h": "o", "db": "a.db"})
+                        theirs = call(obs, {"op": "dump", "h": "o"})
+                        obs.close()
+                        if mine["ok"] and theirs["ok"]:
+                            a = set(f["id"] for f in mine["dump"]["features"])
+                            b = set(f["id"] for f in theirs["dump"]["features"])
+                            if a != b:
+                                probes["criterion_raises_inside_merge_all_after_a_stored_run"] = 1
+                                V.append(viol("C16.merge_all", "after merge_all left by the caller's failing criterion the handle lists features %r "
+                                              "that a fresh process does not find in the file (and misses %r)" % (sorted(a - b)[:4], sorted(b - a)[:4]),
+                                              kind="merge_all_not_stored_after_callback_error", exclude=op["exclude"]))
+                                break
+                            if mine["dump"]["rel"] != theirs["dump"]["rel"] or mine["dump"]["features"] != theirs["dump"]["features"]:
+                                V.append(viol("C16.merge_all", "after merge_all left by the caller's failing criterion the handle and a fresh "
+                                              "process disagree on relations / columns", kind="merge_all_not_stored_after_callback_error",
+                                              exclude=op["exclude"], what="relations"))
+                                break
+                            if len(a) != len(pre["features"]):
+                                probes["criterion_raises_inside_merge_all_after_a_stored_run"] = 1
+                        elif mine["ok"] != theirs["ok"]:
+                            V.append(viol("C16.merge_all", "after merge_all left by the caller's failing criterion: handle readable=%s, fresh "
+                                          "process readable=%s" % (mine["ok"], theirs["ok"]), kind="merge_all_not_stored_after_callback_error"))
+                            break
+                        stop = True
+                        continue
+                    r_done = fr
                 if flt2:
                     # merge_all without exclude_components commits run by run; after an error/cancel part-way the SAME handle
                     # is used again: ids it hands out next must not be ids of features that were stored before the failure
